@@ -419,18 +419,20 @@ class MultipartRelatedConsolidator(ConsolidatorBase):
                 flag_str += "+"  # Show positive sign
             elif " " in flags:
                 flag_str += " "  # Space before positive numbers
-            if "0" in flags:
-                flag_str += "0"  # Zero padding
+            if "0" in flags and "-" not in flags:
+                flag_str += "0"  # Zero padding (ignored by printf when left-aligned)
 
             # Build width and precision if they exist
             width_str = width if width else ""
             precision_str = f".{precision}" if precision else ""
 
-            # Handle cases like "%6.6d", which should be converted to "{:06d}"
-            if precision and width:
-                flag_str = "0"
+            # Handle cases like "%6.6d", which should be converted to "{:06d}": the precision of an integer
+            # conversion is its minimum number of digits, i.e. zero padding that does not count the sign
+            if precision:
+                sign_str = "+" if "+" in flags else " " if " " in flags else ""
+                flag_str = sign_str + "0"
                 precision_str = ""
-                width_str = str(max(precision, width))
+                width_str = str(max(int(precision) + len(sign_str), int(width) if width else 0))
 
             # Construct the new-style format specifier
             return f"{{:{flag_str}{width_str}{precision_str}{type_char}}}"
